@@ -1,15 +1,248 @@
-import Sif.Spec.C06
+import Sif.Proofs.C06
+import Std.Data.String.ToInt
 /-
-  C06 — each bridged Ethereum event is credited at most once, as agreed.  Property theorems only.
+  C06 — each bridged Ethereum event is credited at most once, as agreed.
+  Property theorems only (helpers: Sif/Proofs/C06.lean).  Quantifiers: every state (any balances, any store of
+  prophecies), every validator set, every claim message (any amount incl. zero / negative / huge, any symbol,
+  any receiver incl. blocked module accounts, any claim type), every iteration order of the claim map, every
+  history of messages and validator-set changes.
 -/
 namespace Sif.Props.C06
-open Sif.Oracle Sif.Bank Sif.EthBridge Sif.Spec.C06
+open Sif.Oracle Sif.Bank Sif.EthBridge Sif.Spec.C06 Sif.Generated
 
-/-- A claim message that does not pass `ValidateBasic` changes nothing. -/
-theorem invalid_claim_no_change (ord : List Group → List Group) (vals : List Validator) (s : BState) (m : ClaimMsg)
-    (h : claimValidate m = false) : (deliver ord vals s (.claim m)).1 = s := by
-  simp [deliver, validateBasic, h]
+/-- ProcessSuccessfulClaim is called only under `status.Text == SUCCESS`, exactly once (regenerated fact) -/
+theorem facts_credit_guard :
+    BridgeConsts.creditGuard = "status.Text == oracletypes.StatusText_STATUS_TEXT_SUCCESS" ∧
+    BridgeConsts.peggedCoinPrefix = "c" := by decide
 
-example : claimValidate ⟨0, 1, -1, "", 0, 0, "", "", 0⟩ = false := by decide
+/-- **One claim message, all clauses at once** (`creditStep` is also what the driver evaluates on the
+    implementation's balances): coins move iff the message was accepted and turned its prophecy SUCCESS in this very
+    step — then exactly the credit of the final claim (receiver, amount, `"c" ++ symbol` for a lock / `symbol` for a
+    burn) is added to the receiver and to the supply and nothing else changes (frame) — otherwise no balance and
+    no supply changes.  For every list of accounts × denominations. -/
+theorem credit_step (ord : List Group → List Group) (vals : List Validator) (s : BState) (m : ClaimMsg)
+    (keys : List (Nat × String)) (denoms : List String) :
+    creditStep (deliver ord vals s (.claim m)).2.isOk
+      (statusOf s.oracle (claimOf m).id) (statusOf (deliver ord vals s (.claim m)).1.oracle (claimOf m).id)
+      (finalOf (deliver ord vals s (.claim m)).1.oracle (claimOf m).id)
+      s.bank.bal (deliver ord vals s (.claim m)).1.bank.bal s.bank.supply (deliver ord vals s (.claim m)).1.bank.supply
+      keys denoms = true := by
+  rcases deliver_claim_cases ord vals s m with ⟨f, hd⟩ | ⟨s', status, hc, hd⟩
+  · rw [hd]
+    simp [creditStep, Out.isOk, sameOn]
+  · rw [hd]
+    obtain ⟨o, fin, hp, eo, _, _, _, _, hcase⟩ := createClaim_ok hc
+    obtain ⟨sb, sa, fa⟩ := processClaim_status hp
+    simp only [Out.isOk]
+    rw [eo, sb, sa, fa]
+    rcases hcase with ⟨hs, hsucc⟩ | ⟨hs, hsame⟩
+    · obtain ⟨c, hcred, _, hbal, hsup, _⟩ := processSuccessfulClaim_ok hsucc
+      subst hs
+      simp only [creditStep, hcred]
+      simp only [creditedOn, Bool.and_eq_true, List.all_eq_true, beq_iff_eq]
+      constructor
+      · intro k _
+        have := hbal k.1 k.2
+        simp only [at_] at this
+        simpa using this
+      · intro d _
+        have := hsup d
+        simp only [atD] at this
+        simpa using this
+    · have hne : (status == StatusText.success) = false := by simpa using hs
+      subst hsame
+      simp [creditStep, hne, sameOn]
+
+/-- non-vacuity: a state in which the second claim of two 50/50 validators credits 1000 cusdc to account 4 -/
+example : (deliver id [⟨0, 50, true⟩, ⟨1, 50, true⟩]
+    { BState.init with oracle := ⟨[0, 1], [⟨"15x", .pending, .empty, [(.eth 4 1000 "usdc" 0 2, [0])], [(0, .eth 4 1000 "usdc" 0 2)]⟩], none⟩ }
+    (.claim ⟨1, 1, 5, "x", 4, 1000, "usdc", "x", 2⟩)).1.bank.bal 4 "cusdc" = 1000 := by decide
+
+/-- Credit only on the transition: a claim message whose result is anything but "accepted, SUCCESS" leaves the whole
+    bank (balances, supply, accounts) and the peggy-token list untouched. -/
+theorem credit_only_on_transition (ord : List Group → List Group) (vals : List Validator) (s : BState) (m : ClaimMsg)
+    (h : (deliver ord vals s (.claim m)).2 ≠ .claimed .success) :
+    (deliver ord vals s (.claim m)).1.bank = s.bank ∧ (deliver ord vals s (.claim m)).1.peggy = s.peggy := by
+  rcases deliver_claim_cases ord vals s m with ⟨f, hd⟩ | ⟨s', status, hc, hd⟩
+  · rw [hd]; exact ⟨rfl, rfl⟩
+  · rw [hd] at h ⊢
+    obtain ⟨o, fin, _, _, _, _, _, _, hcase⟩ := createClaim_ok hc
+    rcases hcase with ⟨hs, _⟩ | ⟨_, hsame⟩
+    · subst hs; exact (h rfl).elim
+    · subst hsame; exact ⟨rfl, rfl⟩
+
+/-- …and SUCCESS is reported only by the step that moves the prophecy from pending (or absent) to SUCCESS, which by
+    `Props.C05.final_is_final` happens at most once per prophecy id. -/
+theorem success_is_a_transition (ord : List Group → List Group) (vals : List Validator) (s : BState) (m : ClaimMsg)
+    (h : (deliver ord vals s (.claim m)).2 = .claimed .success) :
+    statusOf s.oracle (claimOf m).id = .pending ∧ statusOf (deliver ord vals s (.claim m)).1.oracle (claimOf m).id = .success := by
+  rcases deliver_claim_cases ord vals s m with ⟨f, hd⟩ | ⟨s', status, hc, hd⟩
+  · rw [hd] at h; cases h
+  · rw [hd] at h ⊢
+    cases h
+    obtain ⟨o, fin, hp, eo, _⟩ := createClaim_ok hc
+    obtain ⟨sb, sa, _⟩ := processClaim_status hp
+    rw [eo]
+    exact ⟨sb, sa⟩
+
+/-- The credit matches the final claim: on "accepted, SUCCESS" the receiver named in the final content gets exactly
+    its amount in the pegged (lock) or native (burn) denomination, supply grows by the same, nothing else moves;
+    the receiver is not a blocked (module) account. -/
+theorem credit_matches_final (ord : List Group → List Group) (vals : List Validator) (s : BState) (m : ClaimMsg)
+    (h : (deliver ord vals s (.claim m)).2 = .claimed .success) :
+    ∃ c, creditOf (finalOf (deliver ord vals s (.claim m)).1.oracle (claimOf m).id) = some c ∧ blocked c.1 = false ∧
+      (∀ a d, (deliver ord vals s (.claim m)).1.bank.bal a d = s.bank.bal a d + (if a = c.1 ∧ d = c.2.1 then c.2.2 else 0)) ∧
+      (∀ d, (deliver ord vals s (.claim m)).1.bank.supply d = s.bank.supply d + (if d = c.2.1 then c.2.2 else 0)) := by
+  rcases deliver_claim_cases ord vals s m with ⟨f, hd⟩ | ⟨s', status, hc, hd⟩
+  · rw [hd] at h; cases h
+  · rw [hd] at h ⊢
+    cases h
+    obtain ⟨o, fin, hp, eo, _, _, _, _, hcase⟩ := createClaim_ok hc
+    obtain ⟨_, _, fa⟩ := processClaim_status hp
+    rcases hcase with ⟨_, hsucc⟩ | ⟨hs, _⟩
+    · obtain ⟨c, hcred, hb, hbal, hsup, _⟩ := processSuccessfulClaim_ok hsucc
+      refine ⟨c, ?_, hb, hbal, hsup⟩
+      simp only
+      rw [eo, fa]; exact hcred
+    · exact (hs rfl).elim
+
+/-- Panics and errors are confined by the transaction wrapper: a claim message that fails for whatever reason
+    (negative amount, invalid denomination, blocked receiver ⇒ `panic(err)`, unspecified claim type ⇒ error)
+    leaves the whole state as it was — in particular the prophecy stays pending *without* that claim. -/
+theorem failed_claim_changes_nothing (ord : List Group → List Group) (vals : List Validator) (s : BState) (m : Msg) (f : Fail)
+    (h : (deliver ord vals s m).2 = .failed f) : (deliver ord vals s m).1 = s := deliver_failed h
+
+/-- non-vacuity: the crossing claim names a blocked receiver (module account 1): panic, state unchanged -/
+example : (deliver id [⟨0, 50, true⟩, ⟨1, 50, true⟩]
+    { BState.init with oracle := ⟨[0, 1], [⟨"15x", .pending, .empty, [(.eth 1 1000 "usdc" 0 2, [0])], [(0, .eth 1 1000 "usdc" 0 2)]⟩], none⟩ }
+    (.claim ⟨1, 1, 5, "x", 1, 1000, "usdc", "0x0000000000000000000000000000000000000000", 2⟩)).2 = .failed .panic := by decide
+
+/-- After a lock credit of `"c" ++ sym` that token is in the peggy list: `Lock` of it is refused, `Burn` passes the
+    peggy-token guard — and the list only grows, so this holds thereafter. -/
+theorem lock_then_only_burnable (ord : List Group → List Group) (vals : List Validator) (s : BState) (m : ClaimMsg)
+    (r : Nat) (a : Int) (sym : String) (t : Nat)
+    (h : (deliver ord vals s (.claim m)).2 = .claimed .success)
+    (hf : finalOf (deliver ord vals s (.claim m)).1.oracle (claimOf m).id = .eth r a sym t 2) :
+    lockThenOnlyBurnable (deliver ord vals s (.claim m)).1.peggy (peggedPrefix ++ sym) = true ∧
+    (∀ pm : PegMsg, pm.symbol = peggedPrefix ++ sym → ∃ f, lock (deliver ord vals s (.claim m)).1 pm = .error f) := by
+  rcases deliver_claim_cases ord vals s m with ⟨f, hd⟩ | ⟨s', status, hc, hd⟩
+  · rw [hd] at h; cases h
+  · rw [hd] at h hf ⊢
+    cases h
+    obtain ⟨o, fin, hp, eo, _, _, _, _, hcase⟩ := createClaim_ok hc
+    obtain ⟨_, _, fa⟩ := processClaim_status hp
+    simp only at hf
+    rw [eo, fa] at hf
+    rcases hcase with ⟨_, hsucc⟩ | ⟨hs, _⟩
+    · obtain ⟨c, _, _, _, _, _, _, _, _, _, _, hpeg⟩ := processSuccessfulClaim_ok hsucc
+      have hp' := hpeg r a sym t hf
+      have hin : s'.peggy.contains (peggedPrefix ++ sym) = true := by
+        simp only
+        rw [hp']
+        unfold addPeggy
+        split
+        · assumption
+        · simp
+      refine ⟨hin, ?_⟩
+      intro pm hsym
+      unfold lock
+      by_cases hpa : s'.paused = true
+      · exact ⟨_, by simp [hpa]⟩
+      · refine ⟨.err .other, ?_⟩
+        have : s'.paused = false := by simpa using hpa
+        simp only at hin
+        simp [this, hsym, hin]
+    · exact (hs rfl).elim
+
+theorem peggy_only_grows (ord : List Group → List Group) (vals : List Validator) (s : BState) (m : Msg) (tkn : String)
+    (h : s.peggy.contains tkn = true) : (deliver ord vals s m).1.peggy.contains tkn = true := by
+  unfold deliver
+  split
+  · exact h
+  · cases hh : handle ord vals s m with
+    | error e => exact h
+    | ok r =>
+      simp only
+      cases m with
+      | claim cm =>
+        simp only [handle] at hh
+        obtain ⟨y, hy, e⟩ := map_ok hh
+        subst e
+        obtain ⟨o, fin, _, _, _, _, _, _, hcase⟩ := createClaim_ok (s' := y.1) (status := y.2) hy
+        rcases hcase with ⟨_, hsucc⟩ | ⟨_, hsame⟩
+        · obtain ⟨c, _, _, _, _, _, _, _, _, _, hpeg, _⟩ := processSuccessfulClaim_ok hsucc
+          rcases hpeg with e | ⟨sym, e, _⟩
+          · simp only; rw [e]; exact h
+          · simp only; rw [e]
+            unfold addPeggy
+            split
+            · exact h
+            · simp only [List.contains_eq_mem, List.mem_append, decide_eq_true_eq] at h ⊢
+              exact Or.inl h
+        · simp only; rw [hsame]; exact h
+      | lock pm =>
+        simp only [handle] at hh
+        obtain ⟨y, hy, e⟩ := map_ok hh
+        subst e
+        simp only; rw [(lock_ok_frame (s' := y.1) (e := y.2) hy).2.1]; exact h
+      | burn pm =>
+        simp only [handle] at hh
+        obtain ⟨y, hy, e⟩ := map_ok hh
+        subst e
+        simp only; rw [(burn_ok_frame (s' := y.1) (e := y.2) hy).2.1]; exact h
+      | pause a p =>
+        simp only [handle] at hh
+        obtain ⟨y, hy, e⟩ := map_ok hh
+        subst e
+        unfold setPause at hy
+        split at hy <;> cases hy
+        exact h
+      | blacklist a l =>
+        simp only [handle] at hh
+        obtain ⟨y, hy, e⟩ := map_ok hh
+        subst e
+        unfold setBlacklist at hy
+        split at hy <;> cases hy
+        exact h
+      | cethReceiver a r' =>
+        simp only [handle] at hh
+        obtain ⟨y, hy, e⟩ := map_ok hh
+        subst e
+        unfold setCethReceiver at hy
+        repeat (split at hy <;> try cases hy)
+        exact h
+      | rescue a r' n =>
+        simp only [handle] at hh
+        obtain ⟨y, hy, e⟩ := map_ok hh
+        subst e
+        unfold rescueCeth at hy
+        repeat (split at hy <;> try cases hy)
+        exact h
+      | whitelist a op v =>
+        simp only [handle] at hh
+        obtain ⟨y, hy, e⟩ := map_ok hh
+        subst e
+        unfold EthBridge.updateWhiteList at hy
+        split at hy
+        · cases hy
+        · split at hy
+          · cases hy
+          · cases hy; exact h
+
+/-- For a fixed chain id the prophecy id `decimal(chain) ++ decimal(nonce) ++ sender` determines nonce and sender,
+    when senders have equal length (the fixed 42-character form): distinct events never share a tally. -/
+theorem prophecyId_injective_fixed_chain (chain n₁ n₂ : Int) (s₁ s₂ : String) (hl : s₁.length = s₂.length)
+    (h : prophecyId chain n₁ s₁ = prophecyId chain n₂ s₂) : n₁ = n₂ ∧ s₁ = s₂ := by
+  unfold prophecyId at h
+  have h' := congrArg String.toList h
+  simp only [String.toList_append, List.append_assoc] at h'
+  have h2 := List.append_cancel_left h'
+  have hl' : s₁.toList.length = s₂.toList.length := by simpa [String.length_toList] using hl
+  obtain ⟨e1, e2⟩ := List.append_inj' h2 hl'
+  exact ⟨Int.repr_injective (String.toList_inj.mp e1), String.toList_inj.mp e2⟩
+
+/-- Observation O1 (not a violation of "at most once": it can only merge two events into one tally, i.e. suppress
+    a credit): across chain ids the un-separated concatenation is not injective. -/
+theorem prophecyId_not_injective_across_chains : prophecyId 1 23 "0xab" = prophecyId 12 3 "0xab" := by decide
 
 end Sif.Props.C06
